@@ -5,12 +5,12 @@ CONSTANTS
   RegVals = {1, 4}
   SingVals = {3, 4}
   MassCacheKeyed = TRUE
+  MassHonoursExplicit = FALSE
   MaxDepth = 7
   EmitJson = FALSE
 INVARIANT TypeOK
 PROPERTY SameObject
 PROPERTY ExplicitHonoured
 PROPERTY NoInterference
-PROPERTY ExplicitHonouredByMass
 VIEW View
 CHECK_DEADLOCK FALSE
